@@ -35,8 +35,13 @@ def make(rng, tier):
             x = rand_tt(rng, N, rand_ranks(rng, d, 2), dt, M=M)
             if kind == "inflated":
                 y = rand_tt(rng, N, rand_ranks(rng, d, 3), dt, M=M)
-                x = x + 0 * y if d > 0 else x
-                x = x + y * 0.0
+                if rep % 2 == 0:
+                    x = x + 0 * y if d > 0 else x
+                    x = x + y * 0.0
+                else:
+                    # the unused (zero) rank slots come FIRST in every bond: exactly zero leading columns in the unfoldings
+                    x = (y * 0.0) + x
+                    x = (0 * y) + x
             elif kind == "cancel":
                 y = rand_tt(rng, N, rand_ranks(rng, d, 2), dt, M=M)
                 x = (x + y) - y
